@@ -85,7 +85,7 @@ func runC11(c *Ctx) {
 		"per case: model enc = Go bytes, model dec = Go Decode text, Go Decode of model bytes = model rt, and the implementation-only round-trip oracle. " +
 		"non-trivial = nesting depth >= 2, or a boundary length (>= 254) was used, or a cache id was used in the encoding; distinct by (config, type text, value text)"
 
-	total := c.N(6000, 150000)
+	total := c.N(6000, 130000)
 	round := 1500
 	nDis := map[string]int{}
 	disagree := func(name, what string, k *edfCase, extra map[string]interface{}) {
